@@ -5,20 +5,20 @@
    forms, strings.TrimSpace, the run-wide output map; Log/Model.v for the capture pipe.
    Tie to the code: tools/props/C11.py (dag.LoadYAML / dag.Load / model.Status / real scheduler and children).
 
-   The full statements
-       forall its,  parse (doc_render its) = values its
-       forall its,  parse (record (parse (doc_render its))) = parse (doc_render its)
-   are FALSE of the faithful model (F11a, F11b, F11c - the _refuted theorems below, each replayed on the real
-   code by the check); the _partial theorems carry the excluded classes as decidable premises V0 / V1. *)
+   The model describes the REPAIRED code: ff6cf28 (a name cannot contain a quote - F11c) and 0f1faec (exactly the
+   delimiting quotes are stripped - F11b).  What is still false of it, and stays a known finding:
+       forall its,  parse (doc_render its) = values its                      - a quoted value ending in a backslash
+       forall its,  parse (record (parse (doc_render its))) = parse (doc_render its)   - F11a (recording does not quote)
+   the _partial theorems carry exactly these exclusions as decidable premises V0 / V1. *)
 From Coq Require Import List String Ascii.
 Import ListNotations.
 From BD.Params Require Import Model Proofs.
 
 (* Every documented item - word, "quoted value", NAME=word, NAME="quoted value" - of a list of any length yields
-   exactly its name and value, for values in V0: a word has no white space / quote, does not start with a back-tick
-   (and, unnamed, has no = after its first character); quoted text is arbitrary (spaces, =, quotes, back-ticks,
-   backslashes, any byte, empty) except that it does not END with a quote or a backslash and, unnamed, its first
-   white-space-or-= character is not an = followed by a non-space. *)
+   exactly its name and value, for values in V0: quoted text is ARBITRARY (spaces, =, quotes anywhere - also first and
+   last -, back-ticks, backslashes, any byte, empty) except that it does not end with a backslash; a word has no white
+   space / quote, does not start with a back-tick (and, unnamed, has no = after its first character); a name has no
+   white space, = or quote. *)
 Theorem C11_parse_doc_partial : forall its : list item, V0 its = true -> parse (doc_render its) = values its.
 Proof. exact parse_doc. Qed.
 Print Assumptions C11_parse_doc_partial.
@@ -46,32 +46,29 @@ Theorem C11_roundtrip_refuted : exists its, V0 its = true /\
 Proof. exact roundtrip_refuted. Qed.
 Print Assumptions C11_roundtrip_refuted.
 
-(* F11b: an escaped quote (or a backslash) at the end of a quoted value *)
-Theorem C11_parse_doc_refuted_edge : exists v, parse (doc_render [IQuoted v]) <> values [IQuoted v].
-Proof. exact parse_doc_refuted_edge_quote. Qed.
-Print Assumptions C11_parse_doc_refuted_edge.
-
+(* what remains of F11b: a backslash at the end of a quoted value swallows the closing quote *)
 Theorem C11_parse_doc_refuted_backslash : exists v w, parse (doc_render [IQuoted v; IQuoted w]) <> values [IQuoted v; IQuoted w].
 Proof. exact parse_doc_refuted_edge_backslash. Qed.
 Print Assumptions C11_parse_doc_refuted_backslash.
 
-(* F11c: an unnamed quoted value with an = before any space is read as NAME=value *)
-Theorem C11_parse_doc_refuted_eq : exists v, parse (doc_render [IQuoted v]) <> values [IQuoted v].
-Proof. exact parse_doc_refuted_eq. Qed.
-Print Assumptions C11_parse_doc_refuted_eq.
+(* repaired: before fix 0f1faec a value ending in an escaped quote was mangled by strings.Trim (F11b) ... *)
+Example C11_parse_doc_fixed_edge_quote :
+  let v := list_ascii_of_string "say " ++ dq :: list_ascii_of_string "hi" ++ [dq] in
+  parse (doc_render [IQuoted v]) = values [IQuoted v].
+Proof. exact parse_doc_fixed_edge_quote. Qed.
+(* ... and before fix ff6cf28 an unnamed quoted value with an = before any space was read as NAME=value (F11c) *)
+Example C11_parse_doc_fixed_eq : parse (doc_render [IQuoted (L "a=b")]) = values [IQuoted (L "a=b")].
+Proof. exact parse_doc_fixed_eq. Qed.
 
 (* V0 is as large as a class that judges items one by one can be: every clause has an item violating just that clause
    and a documented context in which the parse goes wrong *)
 Theorem C11_V0_clauses_needed :
-  (exists v, qval_ok v = false /\ head_ok v = true /\ parse (doc_render [IQuoted v]) <> values [IQuoted v]) /\
-  (exists v w, qval_ok v = false /\ head_ok v = true /\ v0_item (IQuoted w) = true /\
-               parse (doc_render [IQuoted v; IQuoted w]) <> values [IQuoted v; IQuoted w]) /\
-  (exists v, qval_ok v = true /\ head_ok v = false /\ parse (doc_render [IQuoted v]) <> values [IQuoted v]) /\
-  (exists v w, qval_ok v = true /\ head_ok v = false /\ v0_item (IQuoted w) = true /\
+  (exists v w, qval_ok v = false /\ v0_item (IQuoted w) = true /\
                parse (doc_render [IQuoted v; IQuoted w]) <> values [IQuoted v; IQuoted w]) /\
   (exists v, word_ok v = false /\ parse (doc_render [IWord v]) <> values [IWord v]) /\
   (exists v, word_ok v = true /\ no_inner_eq v = false /\ parse (doc_render [IWord v]) <> values [IWord v]) /\
   (exists v w, word_ok v = false /\ v0_item (IWord w) = true /\ parse (doc_render [IWord v; IWord w]) <> values [IWord v; IWord w]) /\
+  (exists n v, name_ok n = false /\ word_ok v = true /\ parse (doc_render [INamed n v]) <> values [INamed n v]) /\
   (exists n v, name_ok n = false /\ word_ok v = true /\ parse (doc_render [INamed n v]) <> values [INamed n v]).
 Proof. exact V0_clauses_needed. Qed.
 Print Assumptions C11_V0_clauses_needed.
@@ -96,8 +93,8 @@ Print Assumptions C11_output_retry.
 (* Non-vacuity: V0 and V1 are inhabited by the kinds of value the property speaks of *)
 Example C11_V0_nonvacuous :
   V0 [IWord (L "a"); IQuoted (L "a b = c"); INamed (L "X") (L "1=2"); INamedQ (L "Y") (L " p=q  r ");
-      IQuoted (dq :: L "hi" ++ dq :: L " there"); IQuoted []; IWord (L "=x"); IQuoted (L "a= b");
-      INamedQ (L "Z") (L "`date` \x"); IQuoted (L "k =v")] = true.
+      IQuoted (dq :: L "hi" ++ dq :: L " there"); IQuoted []; IWord (L "=x"); IQuoted (L "a=b");
+      INamedQ (L "Z") (L "`date` \x"); IQuoted (L "say " ++ dq :: L "hi" ++ [dq]); IQuoted [dq]; IQuoted (L "=")] = true.
 Proof. exact V0_example. Qed.
 Example C11_V1_nonvacuous : V1 [([], L "a"); (L "X", L "1=2"); ([], L "=x"); ([], L "a\b`c")] = true.
 Proof. exact V1_example. Qed.
